@@ -93,6 +93,9 @@ type NodeSpec struct {
 	IgnoreStop bool `json:"ignoreStop"`
 	// AnnounceByHeadersAlways: announce by headers even without sendheaders (non-BIP130 behaviour; separately classed)
 	AnnounceByHeadersAlways bool `json:"announceByHeadersAlways"`
+	// TruncatedPing: on its first connection the node sends, right after its verack, a well-framed ping (right magic,
+	// length 0, right checksum) whose payload lacks the nonce - a message the decoder must reject without harm
+	TruncatedPing bool `json:"truncatedPing,omitempty"`
 }
 
 // Node is a scripted Bitcoin node.
@@ -287,6 +290,15 @@ func (n *Node) serve(cn *conn) {
 			}
 			_ = n.write(cn, wire.NewMsgVerAck())
 			_ = m
+			if n.Spec.TruncatedPing && cn.id == 0 {
+				frame := make([]byte, 24)
+				binary.LittleEndian.PutUint32(frame[0:4], uint32(Net))
+				copy(frame[4:16], "ping")
+				copy(frame[20:24], []byte{0x5d, 0xf6, 0xe0, 0xe2}) // double SHA-256 of the empty payload
+				cn.wmu.Lock()
+				_, _ = cn.c.Write(frame)
+				cn.wmu.Unlock()
+			}
 		case *wire.MsgVerAck:
 			n.log(rec)
 			n.mu.Lock()
